@@ -22,7 +22,7 @@ for s in "${ids[@]}"; do
   for p in $props; do
     grep -q "\"$p\"" checklib/props.py || { echo "$s $p NOT-CLAIMED" >> "$OUT"; continue; }
     t0=$(date +%s)
-    line=$(timeout 2400 ./check $p --tier quick 2>"$V/.matrix_${s}_${p}.err" | grep -E "^VIOLATION|^OK|^KNOWN" | tr '\n' ';' | cut -c1-300)
+    line=$(timeout 2400 ./check $p --tier quick 2>"$V/.matrix_${s}_${p}.err" | grep -E "^VIOLATION|^OK|^KNOWN" | cut -c1-160 | sort -r | tr '\n' ';')
     dt=$(( $(date +%s) - t0 ))
     if echo "$line" | grep -q VIOLATION; then v=DETECTED; else v=MISSED; fi
     why=$(grep -E "failing case|BROKEN" "$V/.matrix_${s}_${p}.err" | head -2 | cut -c1-500 | tr '\n' ' ')
